@@ -109,7 +109,7 @@ def targets(ctx):
     @st.composite
     def strat(draw):
         case = dict(draw(base))
-        case["route"] = draw(st.sampled_from(["kwargs", "setattr"]))
+        case["route"] = draw(st.sampled_from(["kwargs", "setattr", "lazy"]))
         case["ops"] = draw(st.lists(st.sampled_from(wire.ALL_OPS), max_size=4, unique=True))
         case["xseed"] = draw(st.integers(0, 2**16))
         return case
